@@ -120,14 +120,14 @@ void *memcpy(void *dst, const void *src, size_t n)
  *     offset xv_mc, if it lies in between, is not.  (Every string of this unit has its NUL at the end of its object.) */
 size_t strlen(const char *s)
 {
-    __CPROVER_assert(__CPROVER_r_ok(s, 1), "strlen: argument readable");
     if (xv_asn1_data != NULL && __CPROVER_same_object(s, xv_asn1_data)) {
-        __CPROVER_assert(XC_OFF(s) == 0, "strlen model: the ASN.1 data is measured from its start");
+        __CPROVER_assert(s == xv_asn1_data, "strlen model: the ASN.1 data is measured from its start");
         /* PO[C10,C14] strlen.stays_inside_the_asn1_value (the value has no NUL and no NUL is promised after it: over-read) */
         __CPROVER_assert(xv_asn1_nt || xv_asn1_z < xv_asn1_len, "PO[C10,C14] foreach_san.no_read_beyond_asn1_length");
         __CPROVER_assume(xv_asn1_nt || xv_asn1_z < xv_asn1_len);
         return (size_t)xv_asn1_z;
     }
+    __CPROVER_assert(__CPROVER_r_ok(s, 1), "strlen: argument readable");
     size_t room = XC_ROOM(s);
     if (XC_REBASE(s)) {
         const char *b = xv_g_str; size_t off = XC_OFF(s), end = __CPROVER_OBJECT_SIZE(xv_g_str) - 1;
@@ -299,16 +299,26 @@ int X509_NAME_get_text_by_NID(const X509_NAME *name, int nid, char *buf, int len
         return 0;
     int i = xv_cn_len > len - 1 ? len - 1 : xv_cn_len;
     __CPROVER_assert(__CPROVER_w_ok(buf, (size_t)i + 1), "X509_NAME_get_text_by_NID: buffer of len bytes writable");
-    if (i > 0) {
-        __CPROVER_havoc_slice(buf, (size_t)i);
-        if (xv_mc < (size_t)i) buf[xv_mc] = (char)xv_cn_byte;
-    }
+    /* the i bytes copied are ANY bytes: the whole object buf points into becomes arbitrary (more than OpenSSL writes: an
+     * over-approximation; __CPROVER_havoc_slice of up to 2^24 bytes exhausts the solver's memory), then byte xv_mc and the NUL */
+    __CPROVER_havoc_object(buf);
+    if (xv_mc < (size_t)i) buf[xv_mc] = xv_cn_byte;
     buf[i] = 0;
+#ifdef XV_STR_EXACT
+    xv_ex_cn[0] = buf[0]; xv_ex_cn[1] = i > 0 ? buf[1] : 0; xv_ex_cn[2] = 0;
+#endif
     xv_nm_fills++; xv_nm_fill_name = name; xv_nm_buf = buf; xv_nm_fill_len = len;
     return i;
 }
 
-/* TRUSTED(OpenSSL) X509_get_ext_d2i(cert, NID_subject_alt_name, NULL, NULL): NULL or a new stack owned by the caller */
+/* TRUSTED(OpenSSL) X509_get_ext_d2i(cert, NID_subject_alt_name, NULL, NULL): NULL or a new stack owned by the caller.
+ * The objects the entries will refer to are made HERE (DFCC does not admit allocation inside a loop that carries a loop
+ * contract, and OPENSSL_sk_value is called from foreach_san's loop):
+ *   xv_asn1_buf  (made by xc_ghost_havoc(), harness/cert/_ghost.h) xv_asn1_cap (1..XV_ASN1_MAX+1, arbitrary) bytes: the data of the entry handed out last occupies its LAST
+ *                len (+1 with xv_asn1_nt) bytes, so that a read past the data is a read past the object; every entry's
+ *                length is 0..cap-(nt), i.e. any lengths at all, cap being arbitrary;
+ *   xv_id_base   xv_gn_num+1 bytes: entry i's ASN1_STRING / X509_NAME is the (opaque) address xv_id_base + i: distinct
+ *                entries have distinct identities */
 void *X509_get_ext_d2i(const X509 *x, int nid, int *crit, int *idx)
 {
     __CPROVER_assert(x == XV_CERT && nid == NID_subject_alt_name && crit == NULL && idx == NULL, "X509_get_ext_d2i: subjectAltName of the certificate");
@@ -317,6 +327,8 @@ void *X509_get_ext_d2i(const X509 *x, int nid, int *crit, int *idx)
         return NULL;
     xv_gn_live++;
     xv_gn_next = 0;
+    xv_id_base = malloc((size_t)xv_gn_num + 1);
+    __CPROVER_assume(xv_id_base != NULL);
     return XV_GNS;
 }
 /* TRUSTED(OpenSSL crypto/stack) OPENSSL_sk_num: -1 for NULL */
@@ -346,37 +358,33 @@ void *OPENSSL_sk_value(const OPENSSL_STACK *st, int idx)
     _Bool match = 0;
     xv_asn1_str = NULL; xv_asn1_data = NULL; xv_asn1_len = 0; xv_asn1_z = 0; xv_gn_cur_byte = 0;
     if (t == GEN_DNS || t == GEN_EMAIL || t == GEN_URI) {
-        ASN1_IA5STRING *a = malloc(1);
-        __CPROVER_assume(a != NULL);
-        int len = nondet_int(), z = nondet_int();
+        int len = nondet_int(), z = nondet_int(), nt = xv_asn1_nt ? 1 : 0;
 #ifdef XV_STR_EXACT
-        __CPROVER_assume(len >= 0 && len <= XV_EX_MAX);
+        __CPROVER_assume(len >= 0 && len <= XV_EX_MAX && len <= xv_asn1_cap - nt);
 #else
-        __CPROVER_assume(len >= 0 && len <= XV_ASN1_MAX);
+        __CPROVER_assume(len >= 0 && len <= xv_asn1_cap - nt);
 #endif
-        char *d = malloc((size_t)len + (xv_asn1_nt ? 1 : 0));
-        __CPROVER_assume(d != NULL);
-        if (xv_asn1_nt) d[len] = 0;
+        __CPROVER_havoc_object(xv_asn1_buf);
+        char *d = xv_asn1_buf + (xv_asn1_cap - nt - len);
+        if (nt) d[len] = 0;
 #ifdef XV_STR_EXACT
         z = len;
         if (len > 1 && d[1] == 0) z = 1;
         if (len > 0 && d[0] == 0) z = 0;
-        if (xv_gn_next - 1 < 3) { xv_ex_str[xv_gn_next - 1][0] = len > 0 ? d[0] : 0; xv_ex_str[xv_gn_next - 1][1] = len > 1 ? d[1] : 0; xv_ex_str[xv_gn_next - 1][2] = 0; }
+        if (idx < 3) { xv_ex_str[idx][0] = len > 0 ? d[0] : 0; xv_ex_str[idx][1] = len > 1 ? d[1] : 0; xv_ex_str[idx][2] = 0; }
 #else
         __CPROVER_assume(z >= 0 && z <= len);
         if (z < len) d[z] = 0;
         __CPROVER_assume(!(xv_mc < (size_t)z) || d[xv_mc] != 0);
 #endif
-        xv_gn_ent.d.ia5 = a;
-        xv_asn1_str = a; xv_asn1_data = d; xv_asn1_len = len; xv_asn1_z = z;
+        xv_gn_ent.d.ia5 = (ASN1_IA5STRING *)(xv_id_base + idx);
+        xv_asn1_str = (const ASN1_STRING *)(xv_id_base + idx); xv_asn1_data = d; xv_asn1_len = len; xv_asn1_z = z;
         xv_gn_cur_byte = xv_mc < (size_t)len ? d[xv_mc] : 0;
         xv_gn_cur_payload = d;
         match = t == xv_gn_want && z == len;
     } else if (t == GEN_DIRNAME) {
-        X509_NAME *n = malloc(1);
-        __CPROVER_assume(n != NULL);
-        xv_gn_ent.d.dirn = n;
-        xv_gn_cur_payload = n;
+        xv_gn_ent.d.dirn = (X509_NAME *)(xv_id_base + idx);
+        xv_gn_cur_payload = xv_id_base + idx;
         match = t == xv_gn_want;
     } else {
         xv_gn_ent.d.ptr = nondet_voidp();
@@ -384,10 +392,10 @@ void *OPENSSL_sk_value(const OPENSSL_STACK *st, int idx)
     }
     xv_gn_cur_match = match;
 #ifdef XV_STR_EXACT
-    if (xv_gn_next - 1 < 3) xv_ex_match[xv_gn_next - 1] = match;
+    if (idx < 3) xv_ex_match[idx] = match;
 #endif
     if (match) {
-        if (xv_gn_match == xv_want_ord) { xv_gn_k_payload = xv_gn_cur_payload; xv_gn_k_len = xv_asn1_len; xv_gn_k_byte = xv_gn_cur_byte; }
+        if (xv_gn_match == xv_want_ord) { xv_gn_k_payload = xv_gn_cur_payload; xv_gn_k_len = (size_t)xv_asn1_len; xv_gn_k_byte = xv_gn_cur_byte; }
         xv_gn_match++;
     }
     return &xv_gn_ent;
